@@ -696,7 +696,7 @@ def DEF_SV_string(s):
         return F_SV(s)
     if user_ok_str(s):
         return s._user_value
-    if W_ON(s) and W_SV(s) != "":
+    if W_ON(s):
         return W_SV(s)
     if D_ON(s):
         return D_SV(s)
